@@ -130,6 +130,12 @@ def boundary(ctx, runner):
         ("no-osqth-liquidate-lp", {"wallet": [["WETH", D(5)]], "vaults": [[1, v("0.1", 12, [21000, 25020])]], "maxId": 1, "positions": [[[21000, 25020], pos]]}, E(), {"k": "liquidate", "vk": 1}),
         ("closed-pool-liquidate-lp", {"wallet": [["WETH", D(5)], ["OSQTH", D(1)]], "vaults": [[1, v("0.1", 12, [21000, 25020])]], "maxId": 1, "positions": [[[21000, 25020], pos]]}, E(uni_open=False), {"k": "liquidate", "vk": 1}),
         ("dust-left-liquidate", {"wallet": [["WETH", D(5)], ["OSQTH", D(1)]], "vaults": [[1, v("0.55", 10)]], "maxId": 1, "positions": []}, E(), {"k": "liquidate", "vk": 1}),
+        ("burn-insufficient-osqth", {"wallet": [["WETH", D(5)], ["OSQTH", D(1)]], "vaults": [[1, v(3, 10)]], "maxId": 1, "positions": []}, E(), {"k": "burnWithdraw", "vk": 1, "burn": D(5), "withdraw": D(0)}),
+        ("burn-then-unsafe-withdraw", {"wallet": [["WETH", D(5)], ["OSQTH", D(20)]], "vaults": [[1, v(3, 10)]], "maxId": 1, "positions": []}, E(), {"k": "burnWithdraw", "vk": 1, "burn": D(2), "withdraw": D(2)}),
+        ("withdraw-to-dust", {"wallet": [["WETH", D(5)], ["OSQTH", D(1)]], "vaults": [[1, v("0.6", 1)]], "maxId": 1, "positions": []}, E(), {"k": "burnWithdraw", "vk": 1, "burn": D(0), "withdraw": D("0.2")}),
+        ("deposit-negative", {"wallet": [["WETH", D(5)], ["OSQTH", D(1)]], "vaults": [[1, v(3, 10)]], "maxId": 1, "positions": []}, E(), {"k": "deposit", "vk": 1, "eth": D(-1)}),
+        ("withdraw-lp-to-dust", {"wallet": [["WETH", D(5)], ["OSQTH", D(1)]], "vaults": [[1, v("0.3", 1, [21000, 25020])]], "maxId": 1, "positions": [[[21000, 25020], pos]]}, E(), {"k": "withdrawUni", "vk": 1, "pos": [21000, 25020]}),
+        ("mint-on-existing-unsafe", {"wallet": [["WETH", D(5)], ["OSQTH", D(1)]], "vaults": [[1, v(3, 10)]], "maxId": 1, "positions": []}, E(), {"k": "openMint", "deposit": D(1), "mint": D(40), "vk": 1, "pos": None}),
         ("empty-lp", {"wallet": [["WETH", D(5)], ["OSQTH", D(1)]], "vaults": [[1, v(3, 10)]], "maxId": 1, "positions": [[[21000, 25020], dict(pos, liquidity=0, transferred=False, p0=D(1))]]}, E(), {"k": "depositUni", "vk": 1, "pos": [21000, 25020]}),
     ]
     for name, spec, env, op in cases:
